@@ -448,7 +448,16 @@ impl<'a> LineWriter<'a> {
                                 text.push(' ');
                             }
                             let oj = self.tg.object(self.r);
-                            text.push_str(&format!("{} {}", self.term(&pj, pn), self.term(&oj, pn)));
+                            if style == Style::MultiLine && self.fmt == Fmt::N3 && self.r.chance(1, 3) {
+                                // N3 statements may continue on the next physical line anywhere
+                                // between two tokens: break between predicate and object, so the
+                                // line ends without any punctuation
+                                text.push_str(&self.term(&pj, pn));
+                                out_lines.push(std::mem::take(&mut text));
+                                text.push_str(&format!("        {}", self.term(&oj, pn)));
+                            } else {
+                                text.push_str(&format!("{} {}", self.term(&pj, pn), self.term(&oj, pn)));
+                            }
                             idx.push(self.quads.len());
                             self.quads.push((s.clone(), pj.clone(), oj, G::Default));
                         }
